@@ -187,7 +187,9 @@ class Net(object):
             name, valid, wka = NAMES[key]
         else:
             name, valid, wka = key, True, None
-        e = self.errno_of(self.A.bind, s, name)
+        # (names "b"/"c" go in as text, the others as bytes)
+        arg = name.decode("latin1") if key in ("b", "c") else name
+        e = self.errno_of(self.A.bind, s, arg)
         if r.addr is not None:
             sx.check(e is not None, ctx + ":bound-socket-bound-again")
             return "rebind-refused"
